@@ -450,7 +450,7 @@ func init() {
 		ref := ex.newRef(st, "aead")
 		// the cipher is bound to the key bytes it was created from (ghost function aeadkey)
 		kf := ex.declFun("aeadkey", []string{sInt}, sInt)
-		ex.assume("true", eq(app(kf, ref), c.args[0].L[0]))
+		ex.assume(st.pc, eq(app(kf, ref), c.args[0].L[0]))
 		e := ex.freshErr(st, "keysize")
 		tag := fmt.Sprint(ex.typeTag("T:*chacha20poly1305.chacha20poly1305"))
 		return tup(Val{T: c.results().At(0).Type(), L: []string{ite(okc, tag, "0"), ite(okc, ref, "0")}},
@@ -794,10 +794,11 @@ func (ex *Exec) wrapFacts(st *State, e Val, variadic Val) {
 		el := ex.loadElem(st, E, variadic.L[0], app("bvadd", variadic.L[1], idx))
 		inRange := app("bvslt", idx, variadic.L[2])
 		isErrTag := not(eq(el.L[0], "0"))
-		ex.assume("true", implies(and(inRange, isErrTag), app(f, e.L[0], e.L[1], el.L[0], el.L[1])))
+		ex.assume(st.pc, implies(and(inRange, isErrTag), app(f, e.L[0], e.L[1], el.L[0], el.L[1])))
 		only = append(only, and(inRange, isErrTag, or(and(eq(el.L[0], "qt0"), eq(el.L[1], "qt1")), app(f, el.L[0], el.L[1], "qt0", "qt1"))))
 	}
-	ex.emit("(assert (forall ((qt0 Int) (qt1 Int)) (! (=> " + app(f, e.L[0], e.L[1], "qt0", "qt1") + " " + or(only...) + ") :pattern (" + app(f, e.L[0], e.L[1], "qt0", "qt1") + "))))")
+	// guarded by the path condition: allocations in exclusive branches may share a reference term
+	ex.emit("(assert (=> " + st.pc + " (forall ((qt0 Int) (qt1 Int)) (! (=> " + app(f, e.L[0], e.L[1], "qt0", "qt1") + " " + or(only...) + ") :pattern (" + app(f, e.L[0], e.L[1], "qt0", "qt1") + ")))))")
 }
 
 // cryptoEvent lets contracts constrain the exact arguments handed to a primitive (callsite clauses).
